@@ -5,6 +5,9 @@ import (
 	"encoding/binary"
 	"encoding/json"
 	"fmt"
+	"github.com/janelia-flyem/dvid/datastore"
+	"github.com/janelia-flyem/dvid/datatype/labelmap"
+	"io"
 	"sort"
 	"strings"
 	"time"
@@ -16,9 +19,9 @@ import (
 func init() { register("C14", runC14) }
 
 const (
-	c14B   = 32      // block size
-	c14Lo  = -2      // lowest block coordinate of the observed region
-	c14NB  = 4       // blocks per dimension in the region
+	c14B   = 32 // block size
+	c14Lo  = -2 // lowest block coordinate of the observed region
+	c14NB  = 4  // blocks per dimension in the region
 	c14N   = c14B * c14NB
 	c14Off = c14Lo * c14B // voxel offset of the region
 )
@@ -44,7 +47,7 @@ type pyrSess struct {
 }
 
 func (s *pyrSess) log(f string, a ...interface{}) { s.hist = append(s.hist, fmt.Sprintf(f, a...)) }
-func (s *pyrSess) history() string              { return strings.Join(s.hist, "\n") }
+func (s *pyrSess) history() string                { return strings.Join(s.hist, "\n") }
 
 // settle waits until the instance reports itself idle; an instance that never does is itself a violation
 func (s *pyrSess) settle() {
@@ -299,6 +302,133 @@ func (s *pyrSess) eraseEpisode(p *pyrVer) {
 	s.checkPyramid(p)
 }
 
+// bodySplitEpisode: one supervoxel is written over a whole level-1 block (eight blocks), then its body is split
+// by a sparse volume that lies inside one of the eight blocks, so that the other seven only have the supervoxel
+// renamed in their headers.  The HTTP endpoint for body splits is switched off by default (server option), so
+// Data.SplitLabels is called directly.  Level 0 after the split is read back (the new supervoxel ids are the
+// server's choice) and validated: untouched voxels unchanged, the split part one new id, the rest another.
+func (s *pyrSess) bodySplitEpisode(p *pyrVer) {
+	gx, gy, gz := c14Lo/2+s.r.Intn(c14NB/2), c14Lo/2+s.r.Intn(c14NB/2), c14Lo/2+s.r.Intn(c14NB/2)
+	sv := s.nextSV
+	s.nextSV++
+	n := 2 * c14B
+	ox, oy, oz := (2*gx-c14Lo)*c14B, (2*gy-c14Lo)*c14B, (2*gz-c14Lo)*c14B
+	exists := false
+	vol := make([]uint64, n*n*n)
+	for i := range vol {
+		vol[i] = sv
+	}
+	for z := 0; z < n && !exists; z++ {
+		for y := 0; y < n && !exists; y++ {
+			for x := 0; x < n; x++ {
+				if p.at(ox+x, oy+y, oz+z) != 0 {
+					exists = true
+					break
+				}
+			}
+		}
+	}
+	path := fmt.Sprintf("node/%s/lm/raw/0_1_2/%d_%d_%d/%d_%d_%d", p.uuid, n, n, n, 2*gx*c14B, 2*gy*c14B, 2*gz*c14B)
+	if exists {
+		path += "?mutate=true"
+	}
+	rr := Post(path, u64le(vol))
+	s.log("POST raw supervoxel %d over blocks (%d..%d,%d..%d,%d..%d) mutate=%v at v%d -> %d", sv, 2*gx, 2*gx+1, 2*gy, 2*gy+1, 2*gz, 2*gz+1, exists, p.v, rr.Code)
+	if !rr.OK() {
+		s.c.Report("O", "C14 write-fails", "a block write fails: "+rr.String(), s.history())
+		return
+	}
+	for z := 0; z < n; z++ {
+		for y := 0; y < n; y++ {
+			for x := 0; x < n; x++ {
+				p.vox[((oz+z)*c14N+oy+y)*c14N+ox+x] = sv
+			}
+		}
+	}
+	s.settle()
+	s.checkPyramid(p)
+	// split volume: a corner region of the first block of the group
+	cut := 8 + s.r.Intn(16)
+	type span struct{ x, y, z, n int32 }
+	var spans []span
+	inSplit := map[int]bool{}
+	for z := 0; z < cut; z++ {
+		for y := 0; y < c14B; y++ {
+			spans = append(spans, span{int32(2 * gx * c14B), int32(2*gy*c14B + y), int32(2*gz*c14B + z), int32(cut)})
+			for x := 0; x < cut; x++ {
+				inSplit[((oz+z)*c14N+oy+y)*c14N+ox+x] = true
+			}
+		}
+	}
+	var buf bytes.Buffer
+	buf.Write([]byte{0, 3, 0, 0})
+	binary.Write(&buf, binary.LittleEndian, uint32(0))
+	binary.Write(&buf, binary.LittleEndian, uint32(len(spans)))
+	for _, sp := range spans {
+		binary.Write(&buf, binary.LittleEndian, sp)
+	}
+	d, err := datastore.GetDataByUUIDName(dvid.UUID(p.uuid), "lm")
+	if err != nil {
+		s.c.Report("H", "C14 body-split", err.Error(), "")
+		return
+	}
+	ld, ok := d.(*labelmap.Data)
+	v, _ := datastore.VersionFromUUID(dvid.UUID(p.uuid))
+	if !ok {
+		return
+	}
+	toLabel, _, err := ld.SplitLabels(v, sv, io.NopCloser(bytes.NewReader(buf.Bytes())), dvid.ModInfo{User: "verif"})
+	s.log("SplitLabels body %d by %d runs inside block (%d,%d,%d) at v%d -> new body %d, err %v", sv, len(spans), 2*gx, 2*gy, 2*gz, p.v, toLabel, err)
+	if err != nil {
+		s.c.Report("O", "C14 body-split-fails", "a body split of a well-formed sparse volume fails: "+err.Error(), s.history())
+		return
+	}
+	s.settle()
+	got, e := s.getLevel(p.uuid, 0)
+	if got == nil {
+		s.c.Report("O", "C14 read-fails", "level 0 cannot be read after a body split", e+"\n"+s.history())
+		return
+	}
+	var xs, ys uint64
+	for i, old := range p.vox {
+		switch {
+		case old != sv:
+			if got[i] != old {
+				s.c.Report("O", "C14 body-split-touches-others", "a body split changed a voxel outside the split body", fmt.Sprintf("voxel index %d: %d -> %d\n%s", i, old, got[i], s.history()))
+				return
+			}
+		case inSplit[i]:
+			if xs == 0 {
+				xs = got[i]
+			}
+			if got[i] != xs || got[i] == sv || got[i] == 0 {
+				s.c.Report("O", "C14 body-split-level0", "after a body split the split voxels do not carry one new supervoxel id", fmt.Sprintf("voxel index %d: %d (others %d)\n%s", i, got[i], xs, s.history()))
+				return
+			}
+		default:
+			if ys == 0 {
+				ys = got[i]
+			}
+			if got[i] != ys || got[i] == 0 {
+				s.c.Report("O", "C14 body-split-level0", "after a body split the remaining voxels do not carry one supervoxel id", fmt.Sprintf("voxel index %d: %d (others %d)\n%s", i, got[i], ys, s.history()))
+				return
+			}
+		}
+	}
+	if xs == ys {
+		s.c.Report("O", "C14 body-split-level0", "after a body split both parts carry the same supervoxel id", s.history())
+		return
+	}
+	copy(p.vox, got)
+	for _, l := range []uint64{xs, ys, toLabel} {
+		if l >= s.nextSV {
+			s.nextSV = l + 1
+		}
+	}
+	s.c.Count("body-split")
+	s.checkPyramid(p)
+}
+
 func (s *pyrSess) splitSV(p *pyrVer) bool {
 	seen := map[uint64]int{}
 	for _, sv := range p.vox {
@@ -396,6 +526,9 @@ func runC14(c *Ctx) {
 			s.vers = []*pyrVer{{uuid: s.root, v: 1, vox: make([]uint64, c14N*c14N*c14N)}}
 			if si >= 1 || c.Thorough {
 				s.eraseEpisode(s.vers[0])
+			}
+			if si != 1 || c.Thorough {
+				s.bodySplitEpisode(s.vers[0])
 			}
 			for i := 0; i < steps; i++ {
 				o := s.open()
